@@ -433,7 +433,9 @@ class C10(PropCheck):
             xq = p if d > 1 else p[0]
             rows.append(dict(x=[float(v) for v in p], mean=mean, var=var, gmean=[float(v) for v in np.ravel(gm)],
                              gvar=[float(v) for v in np.ravel(gv)], sd=sd, z=z, pdf=float(ss.norm.pdf(z)),
-                             cdf=float(ss.norm.cdf(z)), logcdf=float(ss.norm.logcdf(z)),
+                             cdf=float(ss.norm.cdf(z)), logpdf=float(ss.norm.logpdf(z)), logcdf=float(ss.norm.logcdf(z)),
+                             lr=float(ss.norm.logpdf(z) - ss.norm.logcdf(z)),
+                             ratio=float(np.exp(ss.norm.logpdf(z) - ss.norm.logcdf(z))),
                              lprior=enc(np.ravel(prior.logpdf(xq))[0]),
                              gprior=[enc(v) for v in np.ravel(prior.gradient_logpdf(xq))]))
         out['rows'] = rows
@@ -559,17 +561,17 @@ class C10(PropCheck):
             return '(EvCase {| ec_batches := %s; ec_snaps := %s |})' % (bs, clist(sn, sep=';\n   '))
         if out['t'] is None:
             return None
-        if any(r['cdf'] == 0.0 for r in out['rows']):
-            # normal cdf underflowed to 0.0 at this row's term: outside the oracle domain (0 < Phi) of the model and
-            # of the theorem; the python clause gradient_finite_where_logpdf_finite speaks for such rows
-            self.bump('no_coq_side:cdf_underflow')
+        if any(not math.isfinite(r['ratio']) or not math.isfinite(r['logcdf']) for r in out['rows']):
+            self.bump('no_coq_side:oracle_not_finite')
             return None
+        if any(r['cdf'] == 0.0 for r in out['rows']):
+            self.bump('far_tail_rows(cdf underflows)')
         d = case['recipe']['dim']
         rows = []
         for r in out['rows']:
-            orc = ('{| o_mean := %s; o_var := %s; o_gmean := %s; o_gvar := %s; o_sd := %s; o_z := %s; o_pdf := %s; o_cdf := %s; o_logcdf := %s |}'
+            orc = ('{| o_mean := %s; o_var := %s; o_gmean := %s; o_gvar := %s; o_sd := %s; o_z := %s; o_pdf := %s; o_cdf := %s; o_logpdf := %s; o_logcdf := %s; o_lr := %s; o_ratio := %s |}'
                    % (cq(r['mean']), cq(r['var']), clist([cq(v) for v in r['gmean']]), clist([cq(v) for v in r['gvar']]),
-                      cq(r['sd']), cq(r['z']), cq(r['pdf']), cq(r['cdf']), cq(r['logcdf'])))
+                      cq(r['sd']), cq(r['z']), cq(r['pdf']), cq(r['cdf']), cq(r['logpdf']), cq(r['logcdf']), cq(r['lr']), cq(r['ratio'])))
             if r['lprior'] == 'other' or any(isinstance(v, str) for v in r['gprior']):
                 return None   # prior oracle not finite/-inf: no Coq side (python clauses still apply)
             rows.append('{| r_x := %s; r_orc := %s; r_lprior := %s; r_gprior := %s |}'
